@@ -315,10 +315,11 @@ def rule_CF4(ctx, rep):
     loops = [w for w in iter_nodes(fn.node) if isinstance(w, ast.While)]
     n = 0
     for w in loops:
-        t = norm(w.test)
+        wtest, wbody = astq.loop_normal_form(w)          # `while C:` and `while True: if not C: break` alike
+        t = norm(wtest)
         if 'is_prime' in t:
             n += 1
-            steps = [s for s in w.body if isinstance(s, ast.AugAssign) and isinstance(s.op, ast.Add)]
+            steps = [s for s in wbody if isinstance(s, ast.AugAssign) and isinstance(s.op, ast.Add)]
             lin = to_lin(steps[0].value, opaque=False) if steps else None
             nsym = fn.params[2]
             if lin is not None and lin.c % 4 == 0 and all(c % 4 == 0 for c in lin.t.values()) and lin.coef(nsym) != 0 and lin.coef(nsym) % 2 == 0:
@@ -335,7 +336,7 @@ def rule_CF4(ctx, rep):
                 rep.skip('CF4', fn, inits[-1], 'start value of the search not in the recognised form')
         elif '% 4' in t or '%4' in t:
             n += 1
-            if t.replace(' ', '') in ('p%4!=3',):
+            if t.replace(' ', '') in ('p%4!=3', '3!=p%4'):
                 rep.ok('CF4', fn, w.test, 'for n <= 2 the search continues until p = 3 mod 4')
             else:
                 rep.bad('CF4', fn, w.test, 'the Blum condition tested in the search is not p % 4 != 3')
